@@ -281,7 +281,24 @@ func (c *genCtx) fnLit(d, np int) node {
 
 // closureStmt: statements that create, store, pass and return closures
 func (c *genCtx) closureStmt(d int) node {
-	switch c.r.intn(6) {
+	switch c.r.intn(8) {
+	case 6, 7: // three nested function levels: the innermost uses (and updates) a variable of the
+		// outermost, which is activated more than once
+		name := pick(c.r, []string{"o3", "o4"})
+		a, b, cc := pick(c.r, namePool), pick(c.r, namePool), pick(c.r, namePool)
+		var innerBody []node
+		if c.r.bool() {
+			innerBody = append(innerBody, nSet(a, nApp("+", nSym(a), nSym(cc))))
+		}
+		innerBody = append(innerBody, c.tr(nApp("+", nSym(a), nApp("+", nSym(b), nSym(cc)))))
+		def := nDefn(name, strict(a), "", nFn(strict(b), "", nFn(strict(cc), "", innerBody...)))
+		k1, k2 := "k1", "k2"
+		forms := []node{def,
+			nDef(k1, nCall(nCall(nSym(name), c.arg().intExpr(d-1)), nInt(10))),
+			nDef(k2, nCall(nCall(nSym(name), c.arg().intExpr(d-1)), nInt(20))),
+			c.tr(nCall(nSym(k1), nInt(1))), c.tr(nCall(nSym(k2), nInt(2))), c.tr(nCall(nSym(k1), nInt(3)))}
+		c.clos = append(c.clos, fnInfo{k1, 1, false}, fnInfo{k2, 1, false})
+		return nBegin(forms...)
 	case 0: // a closure over the current names, bound to a variable
 		name := pick(c.r, []string{"c1", "c2"})
 		np := c.r.intn(2)
